@@ -376,6 +376,14 @@ class Program:
         self._overriders = None
         self._derived = None
         self.params_canonicalised = self._canonical_params()
+        from .inline import fold_new_helpers
+        self.folded_helpers = fold_new_helpers(self)
+        if self.folded_helpers:
+            self.by_q, self.by_pattern = {}, {}
+            for f in self.fns.values():
+                self.by_q.setdefault(f.pq, []).append(f)
+                if f.d.get("pattern"):
+                    self.by_pattern.setdefault(f.d["pattern"], []).append(f.usr)
 
     # ---- parameter names
     PARAM_TABLE = os.path.join(os.path.dirname(os.path.abspath(__file__)), "param_names.json")
@@ -508,11 +516,13 @@ def load(repo="/repo", use_cache=True):
     with open(os.path.abspath(__file__), "rb") as _f:
         import hashlib
         fp = hashlib.sha256((fp + hashlib.sha256(_f.read()).hexdigest()).encode()).hexdigest()
-    try:
-        with open(Program.PARAM_TABLE, "rb") as _f:
-            fp = hashlib.sha256((fp + hashlib.sha256(_f.read()).hexdigest()).encode()).hexdigest()
-    except OSError:
-        pass
+    for extra in (Program.PARAM_TABLE, os.path.join(os.path.dirname(os.path.abspath(__file__)), "known_functions.json"),
+                  os.path.join(os.path.dirname(os.path.abspath(__file__)), "inline.py")):
+        try:
+            with open(extra, "rb") as _f:
+                fp = hashlib.sha256((fp + hashlib.sha256(_f.read()).hexdigest()).encode()).hexdigest()
+        except OSError:
+            pass
     pk = os.path.join(facts.CACHE, "merged", fp + ".pickle")
     if use_cache and os.path.exists(pk):
         try:
